@@ -149,6 +149,93 @@ func (g *Gen) Run() (err error) {
 	return nil
 }
 
+// RunRegion verifies one loop of the function as a region of its own: the loop invariants are the region's
+// precondition (everything else about the state on entry is unknown), the loop body is executed once, and every
+// back edge must re-establish the invariants. What happens before the loop is first reached and after it exits is
+// outside the region. This is how critical sections inside functions that also contain `select`, channel
+// operations or goroutine starts are brought under contract.
+func (g *Gen) RunRegion(loopOrd int) (err error) {
+	defer func() {
+		if r := recover(); r != nil {
+			if os.Getenv("GOVC_PANIC") != "" {
+				panic(r)
+			}
+			switch e := r.(type) {
+			case unsupportedErr:
+				err = fmt.Errorf("%s: outside the verified subset: %s", g.unit, string(e))
+			case contractError:
+				err = fmt.Errorf("%s: contract error: %s", g.unit, string(e))
+			default:
+				panic(r)
+			}
+		}
+	}()
+	fn := g.fn
+	curPkgName = ""
+	if bp := g.baseEnv().pkg; bp != nil {
+		curPkgName = bp.Name()
+	}
+	g.emitAxioms("")
+	g.params = map[string]Val{}
+	for _, p := range fn.Params {
+		v := g.freshVal("p:"+p.Name(), p.Type())
+		g.vals[p] = v
+		g.params[p.Name()] = v
+		g.typeFacts("true", v)
+	}
+	for _, fv := range fn.FreeVars {
+		v := g.freshVal("fv:"+fv.Name(), fv.Type())
+		g.vals[fv] = v
+		g.params[fv.Name()] = v
+		g.typeFacts("true", v)
+	}
+	g.collectDebugRefs()
+	g.findLoops()
+	var li *loopInfo
+	for _, l := range g.loopOfHeader {
+		if l.ordinal == loopOrd {
+			li = l
+		}
+	}
+	if li == nil {
+		return fmt.Errorf("CONTRACT-ANCHOR-LOST %s: loop %d not found", g.unit, loopOrd)
+	}
+	g.regionLoop = li
+	// the state on entry to the region is arbitrary: every heap is an unconstrained version of its own
+	g.heap = &Heap{m: map[string]string{"$gen": "r"}}
+	g.heap0 = g.heap.clone()
+	g.genAlloc = map[string]string{"r": g.allocTerm(g.heap)}
+	g.modLocs = []modLoc{{all: true}}
+	// values computed before the loop and used inside it are arbitrary values of their types
+	for b := range li.blocks {
+		for _, in := range b.Instrs {
+			for _, op := range in.Operands(nil) {
+				if op == nil || *op == nil {
+					continue
+				}
+				if def, ok := (*op).(ssa.Instruction); ok {
+					if v, isVal := (*op).(ssa.Value); isVal && !li.blocks[def.Block()] {
+						if _, seen := g.vals[v]; !seen {
+							if _, isTuple := v.Type().(*types.Tuple); isTuple || v.Type() == nil {
+								continue
+							}
+							fv := g.freshVal("outer:"+v.Name(), v.Type())
+							g.vals[v] = fv
+							g.typeFacts("true", fv)
+						}
+					}
+				}
+			}
+		}
+	}
+	for _, b := range g.rpo() {
+		if li.blocks[b] {
+			g.execBlock(b)
+		}
+	}
+	return nil
+}
+
 func (g *Gen) entryEnv() *Env {
 	env := g.baseEnv()
 	env.heap = g.heap0
@@ -327,7 +414,8 @@ func (g *Gen) execBlock(b *ssa.BasicBlock) {
 		preds = append(preds, p)
 		conds = append(conds, g.edgeCond(p, b))
 	}
-	if len(b.Preds) == 0 {
+	regionEntry := g.regionLoop != nil && b == g.regionLoop.header
+	if len(b.Preds) == 0 || regionEntry {
 		g.reach[b] = "true"
 		g.curReach = "true"
 	} else {
@@ -362,7 +450,9 @@ func (g *Gen) execBlock(b *ssa.BasicBlock) {
 			g.vals[phi] = g.mergeVals(phi.Type(), vs, cs, "phi:"+phi.Comment)
 		}
 	}
-	phiVals(nil)
+	if !regionEntry {
+		phiVals(nil)
+	}
 	for idx < len(b.Instrs) {
 		if _, ok := b.Instrs[idx].(*ssa.Phi); !ok {
 			break
@@ -566,6 +656,13 @@ func (g *Gen) localEnv() *Env {
 			env.vars[d.name] = d.val
 		}
 	}
+	// a definition that does not dominate this point is still usable: on executions that did not pass through it
+	// the value is an unconstrained term, i.e. arbitrary (clauses guard their use, e.g. `found ==> expiry <= now`)
+	for _, d := range g.ghostDefs {
+		if _, ok := env.vars[d.name]; !ok {
+			env.vars[d.name] = d.val
+		}
+	}
 	env.heap = g.heap
 	env.old = g.heap0
 	b := g.curBlock
@@ -578,14 +675,17 @@ func (g *Gen) enterLoop(li *loopInfo, b *ssa.BasicBlock) {
 		li.spec = &LoopSpec{}
 	}
 	tag := fmt.Sprintf("loop%d", li.ordinal)
-	// 1. invariants hold on entry
+	// 1. invariants hold on entry (not for the loop verified as a region: there the invariant is the region's
+	// precondition; that it holds when the loop is first reached is outside the region and not claimed)
 	env := g.loopEnv(li, nil)
-	for i, c := range li.spec.Invariants {
-		goal := g.evalBool(c.Expr, env)
-		g.oblig("inv-init", fmt.Sprintf("%s.%s", tag, clauseName(c, i)), goal, c.Src, token.NoPos, true)
-	}
-	for _, ar := range g.autoRangeInv(li) {
-		g.oblig("inv-init", tag+".auto-rangeindex", ar.at(g.vals[ar.phi].S), "-1 <= rangeindex < len", token.NoPos, false)
+	if g.regionLoop != li {
+		for i, c := range li.spec.Invariants {
+			goal := g.evalBool(c.Expr, env)
+			g.oblig("inv-init", fmt.Sprintf("%s.%s", tag, clauseName(c, i)), goal, c.Src, token.NoPos, true)
+		}
+		for _, ar := range g.autoRangeInv(li) {
+			g.oblig("inv-init", tag+".auto-rangeindex", ar.at(g.vals[ar.phi].S), "-1 <= rangeindex < len", token.NoPos, false)
+		}
 	}
 	li.entryHeap = g.heap.clone()
 	// 2. havoc loop-modified state
@@ -600,6 +700,10 @@ func (g *Gen) enterLoop(li *loopInfo, b *ssa.BasicBlock) {
 	sort.Strings(sorted)
 	restrict := g.loopModLocs(li)
 	for _, n := range sorted {
+		if n == "$alloc" && g.regionLoop == li {
+			// the region starts here: there is no earlier allocation state to be distinguished from
+			continue
+		}
 		if n == "$alloc" {
 			old := g.allocTerm(g.heap)
 			nr := g.fresh("alloc", "Int")
@@ -742,6 +846,16 @@ func (g *Gen) checkBackEdge(li *loopInfo, from *ssa.BasicBlock) {
 		goal := g.evalBool(c.Expr, env)
 		g.oblig("inv-preserve", fmt.Sprintf("%s.%s", tag, clauseName(c, i)), goal, c.Src, token.NoPos, true)
 	}
+	if len(li.spec.Steps) > 0 {
+		senv := g.localEnv()
+		senv.resolve = env.resolve
+		senv.heap = g.heap
+		senv.pre = g.endHeapAtHeader(li)
+		for i, c := range li.spec.Steps {
+			goal := g.evalBool(c.Expr, senv)
+			g.oblig("step", fmt.Sprintf("%s.%s", tag, clauseName(c, i)), goal, c.Src, token.NoPos, true)
+		}
+	}
 	for _, ar := range g.autoRangeInv(li) {
 		if v, ok := override["rangeindex"]; ok {
 			g.oblig("inv-preserve", tag+".auto-rangeindex", ar.at(v.S), "-1 <= rangeindex < len", token.NoPos, false)
@@ -786,6 +900,10 @@ func (g *Gen) havocEverything(why string) {
 	}
 	// heaps first touched later still see their initial constant: mark generation so that they get a fresh one
 	g.heap.m["$gen"] = fmt.Sprint(g.havocAll)
+	if g.genAlloc == nil {
+		g.genAlloc = map[string]string{}
+	}
+	g.genAlloc[fmt.Sprint(g.havocAll)] = g.allocTerm(g.heap)
 }
 
 // ---------- values ----------
